@@ -65,3 +65,34 @@ func VerifC01Blank() {
 	verifAssert(w.out == want, "C01.blank.out")
 	verifReach("C01.blank.end")
 }
+
+func init() {
+	verifRegister("VerifC01Bytes", VerifC01Bytes)
+}
+
+// VerifC01Bytes: the rendering rule with the four branch strings as 0..2 arbitrary ASCII bytes each (so that code
+// which measures, slices or searches the branch strings runs on symbolic bytes and on strings of different
+// lengths), concrete distinct names, every forest shape of n rows, both simple routes.
+func VerifC01Bytes() {
+	n := verifN()
+	k := 0
+	lines, rows := wellFormedLines(n, func(string) string { k++; return "n" + string(rune('0'+k)) })
+	bs := func(label string) string {
+		l := int(verifChoose("len_"+label, 0, 2))
+		s := verifBytes(label, l)
+		for j := 0; j < len(s); j++ {
+			verifAssume(s[j] != '\n' && s[j] < 0x80)
+		}
+		return s
+	}
+	ld, li, md, mi := bs("ld"), bs("li"), bs("md"), bs("mi")
+	noIter := verifFlag("noIter")
+	w := newVerifWriter()
+	verifContext("C01.bytes")
+	err := OutputFromMarkdown(w, &verifReader{lines: rows}, c01Options(ld, li, md, mi, noIter)...)
+	verifAssert(err == nil, "C01.bytes.nil")
+	nodes, roots := specForest(lines)
+	verifObserve("out", w.out)
+	verifAssert(w.out == specRenderForest(nodes, roots, ld, li, md, mi), "C01.bytes.out")
+	verifReach("C01.bytes.end")
+}
